@@ -381,6 +381,7 @@ def answer (line : String) : String :=
       match i32? y, monthOfTok m with
       | some y, some m => showShape c y m
       | _, _ => "BADREQ"
+  | ["fmt_flags", _, _, _, _, _] => "OK"
   | ["shape_eq", c1, y1, m1, c2, y2, m2] => withCal c1 fun a => withCal c2 fun b =>
       match i32? y1, monthOfTok m1, i32? y2, monthOfTok m2 with
       | some y1, some m1, some y2, some m2 =>
